@@ -271,8 +271,9 @@ PROPS["C07"] = {
 
 PROPS["C10"] = {
     "judge": judge_c10,
-    "modules": ["Gmsm.Props.C10", "Gmsm.Props.C10Complete", "Gmsm.Props.C10Host", "Gmsm.Props.C10Parents"],
+    "modules": ["Gmsm.Props.C10", "Gmsm.Props.C10Complete", "Gmsm.Props.C10Host", "Gmsm.Props.C10Parents", "Gmsm.Props.C10Names"],
     "theorems": [
+        "Props.C10.verify_name_constraints_respected", "Props.C10.verify_without_dns_name", "Props.C10.verify_congr_host", "Props.C10.verify_dns_host_form", "Props.C10.isValid_no_name_refusal", "Props.C10.constraintName_none_iff",
         "Props.C10.goodSuffix_mono", "Props.C10.buildChains_mono", "Props.C10.candidates_mono", "Props.C10.verify_mono", "Props.C10.checkSigFrom_parent_ca", "Props.C10.checkSigFrom_child_key_irrelevant", "Props.C10.verify_issuers_ca", "Props.C10.findVerifiedParents_mono",
         "Props.C10.mem_findVerifiedParents", "Props.C10.buildChains_sound", "Props.C10.verify_sound",
         "Props.C10.buildChains_budget", "Props.C10.eku_unrestricted", "Props.C10.mem_findVerifiedParents_iff", "Props.C10.findVerifiedParents_complete", "Props.C10.buildChains_complete", "Props.C10.goodSuffix_length_le", "Props.C10.verify_complete", "Props.C10.verify_chains_exact", "Props.C10.verify_iff_exists_good_path", "Props.C10.verify_only_if_good_path", "Props.C10.matchHostnames_eq", "Props.C10.matchLabels_cons", "Props.C10.wildcard_one_label", "Props.C10.wildcard_leftmost_only",
@@ -430,8 +431,9 @@ PROPS["C09"] = {
 
 PROPS["C17"] = {
     "tie_ops": ["ber2der", "p7pad", "p7unpad", "bmp", "unbmp", "p12fill"],
-    "modules": ["Gmsm.Props.C17", "Gmsm.Props.C17Idem", "Gmsm.Props.C17KDF", "Gmsm.Props.C17Key", "Gmsm.Props.C17Mem"],
+    "modules": ["Gmsm.Props.C17", "Gmsm.Props.C17Idem", "Gmsm.Props.C17KDF", "Gmsm.Props.C17Key", "Gmsm.Props.C17Mem", "Gmsm.Props.C17Fix"],
     "theorems": [
+        "Props.C17Key.sm2_bundle_topem", "Props.C17Key.topem_total", "Props.C17Fix.decode_sound", "Props.C17Fix.decode_encodeBags", "Props.C17Fix.decode_never_another_certificate", "Props.C17Fix.decodeAll_encodeBags", "Props.C17Fix.toPEM_encodeBags", "Props.C17Fix.decodeOld_returns_last_ca", "Props.C17Fix.pairAccepted_iff", "Props.C17Fix.gmt0010_pair_accepted", "Props.C17Fix.gmt0010_signer_verifies", "Props.C17Fix.encryptRecipients_iff", "Props.C17Fix.encryptRecipientsOld_agrees", "Props.C17Fix.concatSegments_prims", "Props.C17Fix.contentOf_segments", "Props.C17Fix.concatSegments_error", "Props.C17Fix.parseSignedData_fails_closed", "Props.C17Fix.parseSignedData_ok_iff",
         "Props.C17Mem.padMem_frame", "Props.C17Mem.padMem_caller_buffer_unchanged", "Props.C17Mem.padMem_value", "Props.C17Mem.padInPlace_writes_caller_memory", "Props.C17Key.encode_accepts_iff", "Props.C17Key.parse_marshal", "Props.C17Key.parse_marshal_std", "Props.C17Key.stdParams_sane", "Props.C17Key.accepted_key_decodes", "Props.C17Key.rsa_bundle_decodes", "Props.C17Key.topem_writes_inner_key", "Props.C17Key.unknown_algorithm_rejected", "Props.C17Key.rsa_alg_needs_rsa_key",
         "Props.C17KDF.pbkdf_eq_spec",
         "Props.C17KDF.pbkdf_r0",
@@ -467,8 +469,9 @@ PROPS["C17"] = {
 
 PROPS["C18"] = {
     "judge": judge_parsers,
-    "modules": ["Gmsm.Props.C18", "Gmsm.Props.C18Linear", "Gmsm.Props.C18Output", "Gmsm.Props.C02", "Gmsm.Props.C17", "Gmsm.Props.C16", "Gmsm.Props.C16Codec", "Gmsm.Props.C14Codec", "Gmsm.Props.C17Idem", "Gmsm.Props.C15Codec", "Gmsm.Props.C09Names", "Gmsm.Props.C15KeyAgreement"],
+    "modules": ["Gmsm.Props.C18", "Gmsm.Props.C18Linear", "Gmsm.Props.C18Output", "Gmsm.Props.C02", "Gmsm.Props.C17", "Gmsm.Props.C16", "Gmsm.Props.C16Codec", "Gmsm.Props.C14Codec", "Gmsm.Props.C17Idem", "Gmsm.Props.C15Codec", "Gmsm.Props.C09Names", "Gmsm.Props.C15KeyAgreement", "Gmsm.Props.C17Fix"],
     "theorems": [
+        "Props.C17Fix.parseSignedData_fails_closed",
         "Props.C15KeyAgreement.clientKx_never_panics", "Props.C15KeyAgreement.ecdheGM_always_error",
         "Props.C09Names.decSAN_total",
         "Props.C09Names.sanLoop_fuel",
